@@ -3,6 +3,7 @@
 #include "Bitmap/BitmapFile.h"
 #include "Sprite/TilesetLoader.h"
 #include "Sprite/SpriteLoader.h"
+#include "Stream/FileReader.h"
 #include <climits>
 #include <memory>
 
@@ -65,12 +66,21 @@ void prt_followups(ArtFile& a, Stats& st, uint32_t plan) {
 }
 
 // returns true when the loader accepted
+// plan bit 0x100: go through the file-backed entry points (ReadIndexed(filename), ReadTileset over a FileReader, ArtFile::Read(filename))
 bool load_case(Loader l, const std::vector<uint8_t>& v, Stats& st, uint32_t plan, const char* origin) {
 	Heap h(v);
 	bool ok = false;
+	bool viaFile = (plan & 0x100) != 0;
+	std::string fp;
+	if (viaFile) { fp = scratch_path("c11_in.bin"); write_file(fp, v); st.cls("via_file_entry_point"); }
 	try {
-		if (l == LPrt) { Stream::MemoryReader r(h.p, h.n); ArtFile a = ArtFile::Read(r); ok = true; prtgen::cross_field(a, "accepted PRT"); prt_followups(a, st, plan); }
-		else { Stream::MemoryReader r(h.p, h.n); BitmapFile b = l == LBmpReader ? BitmapFile::ReadIndexed(r) : Tileset::ReadTileset(r); ok = true; bitmap_followups(b, st, plan); }
+		if (l == LPrt) { ArtFile a; if (viaFile) a = ArtFile::Read(fp); else { Stream::MemoryReader r(h.p, h.n); a = ArtFile::Read(r); } ok = true; prtgen::cross_field(a, "accepted PRT"); prt_followups(a, st, plan); }
+		else {
+			BitmapFile b;
+			if (viaFile) { if (l == LBmpReader) b = BitmapFile::ReadIndexed(fp); else { Stream::FileReader fr(fp); b = Tileset::ReadTileset(fr); } }
+			else { Stream::MemoryReader r(h.p, h.n); b = l == LBmpReader ? BitmapFile::ReadIndexed(r) : Tileset::ReadTileset(r); }
+			ok = true; bitmap_followups(b, st, plan);
+		}
 	} catch (const Violation&) { throw; }
 	catch (const std::exception&) { if (ok) throw Violation{"exception escaped a follow-up guard"}; }
 	st.cls(std::string(origin) + (l == LPrt ? ":prt" : l == LTileset ? ":tileset" : ":bmp") + (ok ? ":accepted" : ":rejected"));
@@ -104,7 +114,7 @@ uint64_t wrapped_pitch(int32_t width, unsigned depth) { uint64_t w = uint64_t(in
 void run_case(Tape& t, Stats& st) {
 	uint8_t head = t.u8();
 	Loader l = Loader((head & 0x7F) % 3);
-	uint32_t plan = t.u8();
+	uint32_t plan = t.u8(); if (t.below(4) == 0) plan |= 0x100;
 	if (head & 0x80) { auto v = t.rest(); if (load_case(l, v, st, plan, "raw")) st.nt(fnv1a(v.data(), v.size(), l)); else if (v.size() > 14) st.nt(fnv1a(v.data(), v.size(), l) ^ 1); return; }
 	std::vector<size_t> fields; unsigned which = t.u8() % 4;
 	std::vector<uint8_t> v = seed_file(l, which, &fields);
@@ -126,11 +136,13 @@ void run_sweep(Stats& st) {
 	for (unsigned li = 0; li < 3; ++li) for (unsigned which = 0; which < 4; ++which) {
 		Loader l = Loader(li); std::vector<size_t> fields; std::vector<uint8_t> full = seed_file(l, which, &fields);
 		if (sw("intact", li, which)) V_CHECK(load_case(l, full, st, 0xFF, "intact"), "valid seed file refused (loader " << li << ", seed " << which << ")");
+		if (sw("intact_file", li, which)) V_CHECK(load_case(l, full, st, 0x1FF, "intact_file"), "valid seed file refused through the file-backed entry point (loader " << li << ", seed " << which << ")");
 		for (size_t n = 0; n < full.size(); ++n) {
 			if (full.size() > 3000 && n % 7 != 0 && n + 40 < full.size() && n > 120) continue;   // long pixel/palette bodies: every 7th byte
 			if (!sw("prefix", li, which, n)) continue;
 			std::vector<uint8_t> p(full.begin(), full.begin() + n);
 			V_CHECK(!load_case(l, p, st, 0, "prefix"), "proper prefix (" << n << " of " << full.size() << " bytes) of a valid file was accepted by loader " << li);
+			if (n + 64 >= full.size() || n < 80 || n % 5 == 0) { V_CHECK(!load_case(l, p, st, 0x100, "prefix_file"), "proper prefix (" << n << " of " << full.size() << " bytes) of a valid file was accepted by loader " << li << " through its file-backed entry point"); ++st.evaluations; }
 		}
 		for (size_t fi = 0; fi < fields.size() && fi < 60; ++fi) for (size_t vi = 0; vi < sizeof bnd / 4 + 2; ++vi) {
 			if (!sw("field", li * 4 + which, fi, vi)) continue;
@@ -157,6 +169,22 @@ void run_sweep(Stats& st) {
 				}
 			}
 		}
+	}
+	// positive dimensions whose pitch x |height| reaches 2^32 and is small modulo 2^32, carrying exactly that many pixel bytes
+	// (a size cross-check evaluated in 32 bits passes; flips and writes would then walk billions of bytes of a tiny array)
+	for (unsigned depth : {1u, 4u, 8u}) for (unsigned a = 2; a <= 24; ++a) for (int extra = 0; extra <= 1; ++extra) for (int sign = 0; sign < 2; ++sign) {
+		if (32 - a > 30) continue;
+		if (!sw("wrap32_bmp", depth, a, uint64_t(extra), uint64_t(sign))) continue;
+		uint64_t P = uint64_t(1) << a;                       // pitch, a power of two >= 4
+		uint64_t widthPx = P * 8 / depth;                  // width whose rows are exactly P bytes
+		if (widthPx > 0x7FFFFFFFull) continue;
+		int64_t hmag = (int64_t(1) << (32 - a)) + extra;   // P*h = 2^32 (+P)
+		refgfx::LBmp b; b.depth = depth; b.width = int32_t(widthPx); b.height = int32_t(sign ? -hmag : hmag);
+		for (size_t i = 0; i < (size_t(1) << depth); ++i) b.palette.push_back({uint8_t(i), 9, 9, 0});
+		uint64_t need = (P * uint64_t(hmag)) & 0xFFFFFFFFull; if (need > 70000) continue;
+		b.pixels.assign(size_t(need), 0x33);
+		load_case(LBmpReader, refgfx::encode_bmp(b), st, 0xFF, "wrap32");
+		if (depth == 8 && widthPx == 32) load_case(LTileset, refgfx::encode_bmp(b), st, 0xFF, "wrap32");   // tileset-shaped standard bitmap
 	}
 	// heights INT32_MIN / extreme with positive widths (abs overflow), zero-size pixel arrays
 	for (int32_t hh : {INT32_MIN, INT32_MIN + 1, INT32_MAX, -1, 0}) for (int32_t w : {0, 1, 32}) for (unsigned depth : {1u, 8u}) {
